@@ -88,10 +88,10 @@ def run_repo_suite(case, rec):
 
 
 PROFILES = {
-    "mixed": {"mk_deferred": 1.5},
-    "copy2": {"copy_out": 3.0, "copy": 3.0, "mk_object": 3.0, "add_data": 4.0, "pg_add": 2.0, "remove": 1.5},
+    "mixed": {"mk_deferred": 1.5, "clip": 1.5, "dup_uid": 0.8},
+    "copy2": {"copy_out": 3.0, "clip": 3.0, "mk_group": 3.0, "copy": 3.0, "mk_object": 3.0, "add_data": 4.0, "pg_add": 2.0, "remove": 1.5},
     "churn": {"remove": 4.0, "move": 4.0, "copy": 2.0, "reopen": 2.0, "mk_group": 3.0, "listing": 1.5, "gc": 1.5},
-    "refuse": {"remove_protected": 2.5, "remove_partial": 2.5, "remove": 2.0, "move": 2.0, "add_data_fail": 1.0, "half_write": 2.5, "mk_deferred": 1.5, "move_data": 2.0, "pg_add": 3.0, "add_data": 5.0},
+    "refuse": {"remove_protected": 2.5, "remove_partial": 2.5, "remove": 2.0, "move": 2.0, "add_data_fail": 1.0, "half_write": 2.5, "mk_deferred": 1.5, "dup_uid": 2.5, "move_data": 2.0, "pg_add": 3.0, "add_data": 5.0},
     "drill": {"mk_object": 2.0, "add_data": 3.0, "remove": 2.0, "copy": 1.5},
 }
 
